@@ -8,7 +8,7 @@
 From Coq Require Import String.
 From Coq Require Import List Ascii ZArith Bool.
 From CGV Require Import Base.PyBase Base.PyVal Base.NxGraph Dialect.DialectImpl Reader.ReaderImpl Reader.Grammar
-     Reader.ReaderCheck Reader.Lin Reader.ReaderAst Gen.ReaderEnumGen.
+     Reader.ReaderCheck Reader.Lin Reader.ReaderAst Reader.ReaderX Reader.ReaderXAst Gen.ReaderEnumGen.
 Import ListNotations.
 
 Definition fo_none : float_oracle := fun _ => None.
@@ -38,8 +38,12 @@ Proof. vm_compute. reflexivity. Qed.
 Lemma C05_small_nonvacuous : (500 <=? length (filter (fun a => Nat.eqb (class_C05 true a) 0 && negb (nested_any a)) small_c05))%nat = true.
 Proof. vm_compute. reflexivity. Qed.
 
-(** every enumerated AST outside the defect classes has a flat form satisfying the flat side conditions,
-    i.e. lies in the domain of the unbounded theorem [reader_sim_ast] *)
+(** every enumerated AST has a flat form (items with closings, Reader/ReaderX.v) satisfying the flat side
+    conditions, i.e. lies in the domain of the unbounded theorem [reader_sim_grammar]; and those in which
+    no node closes two branches also have the flat form of Reader/Lin.v ([reader_sim_ast]) *)
+Lemma C04_xflat_small_list :
+  forallb (fun a => has_branch_mult a || xlins_ok fo_none (linearize_x a)) small_c04 = true.
+Proof. vm_compute. reflexivity. Qed.
 Lemma C04_flat_small_list :
-  forallb (fun a => negb (Nat.eqb (class_C04 true a) 0) || flat_ok fo_none a) small_c04 = true.
+  forallb (fun a => cls_double_close a || flat_ok fo_none a) small_c04 = true.
 Proof. vm_compute. reflexivity. Qed.
